@@ -46,7 +46,7 @@ def exhaustive(res, tier, wd):
     def one(item):
         name, c = item
         def go():
-            r, out = tlc("MC_Queue", cfgfile(wd, "mc-" + name, c), wd, workers=5, timeout=3000, tag="mcq" + name)
+            r, out = tlc("MC_Queue", cfgfile(wd, "mc-" + name, c), wd, workers=5, timeout=3000, tag="mcq" + name, args=["-coverage", "1"])
             if not r["ok"] or r["violated"] or r["errors"]:
                 r["tail"] = out[-2000:]
             return r
@@ -56,6 +56,8 @@ def exhaustive(res, tier, wd):
         if r.get("violated") or r.get("errors") or not r.get("ok"):
             raise ToolError("Queue.tla violates %s in config %s (model/monitor inconsistent): %s" % (r.get("violated"), name, r.get("tail", "")))
         res.add_tlc(r)
+    acts = check_vacuity("Queue.tla", rs)
+    res.notes["action_coverage"] = "every action of Queue.tla taken: " + ", ".join("%s=%d" % kv for kv in sorted(acts.items()))
     res.notes["exhaustive_configs"] = {name: "%d distinct states, safety+liveness" % r["distinct"] for (name, c), r in zip(grid, rs)}
     log("[E] %d complete state graphs of Queue.tla incl. liveness (cached=%s): %d distinct states" % (
         len(grid), all(r.get("cached") for r in rs), sum(r["distinct"] for r in rs)))
